@@ -10,7 +10,11 @@ Inductive cact :=
 | CAppend (tx : toxic) (eff : bool)          (* AddToxic: a new stub at the end of the chain, its stage started *)
 | CForward (i : nat)                         (* RemoveToxic's flush: head of stub i's input written to its output *)
 | CForwardDrop (i : nat)                     (* the same hand-off given up after 5 s: the chunk is dropped *)
-| CDelete (i : nat).                         (* splice: the stub of the removed toxic goes *)
+| CDelete (i : nat)                          (* splice: the stub of the removed toxic goes *)
+| CSever (i : nat).                          (* RemoveToxic of a toxic whose Cleanup closes the stub (timeout): stub.Close()
+                                                closes its output; the stub leaves link.stubs without its neighbour's output
+                                                being re-pointed, so whatever is handed to it from now on reaches nobody. In
+                                                this positional pipeline it stays as a dead stub (Exited, closed). *)
 
 Definition listens_interrupt (s : stub) : bool :=
   match mode_of (s_st s) with MSelect _ true _ => true | _ => false end.
@@ -45,7 +49,7 @@ Definition ctl_step (l : link) (a : cact) : option link :=
   | CForward i =>
     match nth_error (l_stubs l) i with
     | Some s =>
-      if is_exited s then
+      if is_exited s && negb (s_closed s) then
         match s_inq s with
         | c :: q =>
           match offer l (S i) c with
@@ -64,7 +68,7 @@ Definition ctl_step (l : link) (a : cact) : option link :=
   | CForwardDrop i =>
     match nth_error (l_stubs l) i with
     | Some s =>
-      if is_exited s then
+      if is_exited s && negb (s_closed s) then
         match s_inq s with
         | _ :: q => Some (upd_stub l i (mkStub (s_tx s) (s_eff s) (s_st s) (s_ps s) q (s_cap s) (s_in_closed s) (s_closed s)))
         | [] => None
@@ -75,9 +79,18 @@ Definition ctl_step (l : link) (a : cact) : option link :=
   | CDelete i =>
     match nth_error (l_stubs l) i with
     | Some s =>
-      if is_exited s && (match s_inq s with [] => true | _ => false end) && negb (Nat.eqb i 0)
+      if is_exited s && negb (s_closed s) && (match s_inq s with [] => true | _ => false end) && negb (Nat.eqb i 0)
       then Some (mkLink (l_now l) (l_src l) (l_rest l) (l_rd l) (remove_nth i (l_stubs l))
                         (l_draws l) (l_trace l) (l_sink_closed l) (l_rx l) (l_tx l) (l_sink_delay l) (l_wr_ready l))
+      else None
+    | None => None
+    end
+  | CSever i =>
+    match nth_error (l_stubs l) i with
+    | Some s =>
+      if is_exited s && negb (s_closed s)
+      then Some (close_downstream
+                   (upd_stub l i (mkStub (s_tx s) (s_eff s) (s_st s) (s_ps s) (s_inq s) (s_cap s) (s_in_closed s) true)) (S i))
       else None
     | None => None
     end
